@@ -24,6 +24,7 @@ Damage catalogue (each with all other shares intact AND with exactly k-1 other s
 Oracle: the result is content(v1), content(v2) or an error - never other bytes - and exactly
 content(v2) whenever >= k untouched v2 shares are present; the read terminates.
 """
+import gc
 import itertools
 
 from .. import boot, common, grid, lib_imm, lib_mut
@@ -274,6 +275,7 @@ def _execute(case, seed):
 
 def chunk(cases, seed):
     res = common.Result()
+    gc.freeze()      # forked worker: keep the collector off the pages inherited from the parent
     for case in cases:
         viol, obs = execute(case, seed)
         if obs.get("skipped"):
@@ -467,9 +469,9 @@ def run(tier, seed):
     cases = []
     if tier == "quick":
         for fkey in ("SDMF", "MDMF"):
-            cases += flip_cases(fkey, seed, ["ro"], [0, 1, 2], ["intact"])
+            cases += flip_cases(fkey, seed, ["ro"], [1, 2], ["intact"])      # share 1 is the first one answered, 2 the last
             cases += flip_cases(fkey, seed, ["ro"], [0], ["needed"])
-            cases += trunc_cases(fkey, seed, ["ro"], [0], ["needed"], step=1)
+            cases += trunc_cases(fkey, seed, ["ro"], [0], ["needed"], step=3)
             cases += trunc_cases(fkey, seed, ["ro"], [1], ["intact"], step=7, raw_step=61)
             cases += field_cases(fkey, seed, ["ro"], [0, 1, 2], ["intact", "needed"], warm_too=False)
             cases += field_cases(fkey, seed, ["rw"], [0], ["intact", "needed"], warm_too=True)
